@@ -165,6 +165,7 @@ def run(ctx):
     ctx.ob("C01.R3", S + ":CSemantics._get_rank", "basic types are ranked through basic_ranks", ok, construct="rank-from-table")
     _promo_rules(ctx)
     _switch_rules(ctx)
+    _condition_rules(ctx)
 
 
 def _promo_rules(ctx):
@@ -256,3 +257,38 @@ def _switch_rules(ctx):
         init = [m for m in cx.body if isinstance(m, ast.FunctionDef) and m.name == "__init__"]
         ok = bool(init) and any(isinstance(n, ast.Assign) and norm(n.targets[0]) == "self.typ" and norm(n.value).endswith(".typ") and norm(n.value).split(".")[0] == init[0].args.args[1].arg for n in ast.walk(init[0]))
         ctx.ob("C01.R5", "%s:CSwitchContext" % cx._module.rel, "the context's type is the type of the expression it was created with", ok, construct="context-typ")
+
+
+def _condition_rules(ctx):
+    """R6: C11 6.8.4.1 / 6.5.3.3 / 6.5.13-15 - a scalar controlling expression is compared with 0 in its own type"""
+    from .. import sym
+    ctx.rule("C01.R6", "conditions (if, while, for, !, &&, ||, ?:) test a scalar value against zero at its own type and width: nothing converts it to int first (0.5 and 1LL << 32 are true)", floor=4)
+    cc = ctx.fn(S, "CSemantics.check_condition")
+    site = S + ":CSemantics.check_condition"
+    co = [c for c in ast.walk(cc) if isinstance(c, ast.Call) and norm(c.func) == "self.coerce"]
+    ok = True
+    detail = []
+    for c in co:
+        cj = [(" ".join(norm(e).split()), pol) for e, pol in sym.conjuncts(c, cc, {})]
+        detail.append(str(cj))
+        guarded = any((t.endswith(".typ.is_scalar") and not pol) or (t.startswith("not ") and t.endswith(".typ.is_scalar") and pol) for t, pol in cj)
+        ok = ok and guarded
+    ctx.ob("C01.R6", site, "a conversion of the condition to int happens at most for non-scalar operands (where it produces the diagnostic)", ok, construct="no-narrowing-of-scalars", node=co[0] if co else cc, detail="; ".join(detail))
+    rets = [r for r in ast.walk(cc) if isinstance(r, ast.Return)]
+    ctx.ob("C01.R6", site, "the (array/function-to-pointer converted) condition itself is returned", len(rets) == 1 and norm(rets[0].value) == cc.args.args[1].arg and any(norm(c.func) == "self.pointer" for c in ast.walk(cc) if isinstance(c, ast.Call)), construct="returns-condition")
+    users = {}
+    for q in ("on_if", "on_while", "on_do", "on_for", "on_ternop"):
+        fn = ctx.fn(S, "CSemantics." + q, optional=True)
+        if fn is None:
+            continue
+        users[q] = any(isinstance(c, ast.Call) and norm(c.func) == "self.check_condition" for c in ast.walk(fn))
+        narrowing = [c for c in ast.walk(fn) if isinstance(c, ast.Call) and norm(c.func) == "self.coerce" and len(c.args) == 2 and norm(c.args[1]) in ("self.int_type", "self.get_type(['int'])")
+                     and norm(c.args[0]) in ("condition", "lhs")]
+        ctx.ob("C01.R6", S + ":CSemantics." + q, "%s prepares its controlling expression with check_condition and does not convert it to int itself" % q, users[q] and not narrowing, construct="uses-check-condition:" + q,
+               node=narrowing[0] if narrowing else fn)
+    ctx.need(len(users) >= 4, "statement handlers with conditions not found")
+    cg = ctx.fn("ppci/lang/c/codegenerator.py", "CCodeGenerator.check_non_zero")
+    z = [c for c in ast.walk(cg) if isinstance(c, ast.Call) and norm(c.func) == "self.emit_const" and norm(c.args[0]) == "0"]
+    cj = [c for c in ast.walk(cg) if isinstance(c, ast.Call) and norm(c.func) == "ir.CJump"]
+    ok = len(z) == 1 and norm(z[0].args[1]).endswith(".typ") and len(cj) == 1 and try_const(cj[0].args[1]) == "==" and [norm(a) for a in cj[0].args[3:5]] == ["no_block", "yes_block"]
+    ctx.ob("C01.R6", "ppci/lang/c/codegenerator.py:CCodeGenerator.check_non_zero", "the generated test compares with a zero of the expression's own type; equal goes to the no-block", ok, construct="zero-of-own-type")
